@@ -243,6 +243,54 @@ func init() {
 		c := e.C
 		return &Val{T: c.Concat(a[0].T, c.LitU(0, 96))}
 	})
+	// keccak sponge (crypto.KeccakState): the digest is an uninterpreted function of what was written; only the
+	// argument of Write is visible to contracts (assertcall); Read overwrites the destination bytes with unknown content.
+	ks := "iface:github.com/ethereum/go-ethereum/crypto.KeccakState."
+	reg("github.com/ethereum/go-ethereum/crypto.NewKeccakState", func(e *Enc, fr *Frame, st *State, a []*Val, _ []types.Type, pos token.Pos) *Val {
+		c := e.C
+		obj := c.BVOp("bvadd", st.Alloc, e.bv64(1))
+		st.Alloc = obj
+		return &Val{T: c.Concat(e.bv64(keccakStateTypeID), e.mkPtr(obj, e.bv64(0)))}
+	})
+	reg(ks+"Reset", func(e *Enc, fr *Frame, st *State, a []*Val, _ []types.Type, pos token.Pos) *Val { return &Val{} })
+	reg(ks+"Write", func(e *Enc, fr *Frame, st *State, a []*Val, _ []types.Type, pos token.Pos) *Val {
+		e.work(st, e.slLen(a[1].T))
+		return &Val{Tup: []*Val{{T: e.slLen(a[1].T)}, {T: e.C.LitU(0, IfaceW)}}}
+	})
+	reg(ks+"Read", func(e *Enc, fr *Frame, st *State, a []*Val, _ []types.Type, pos token.Pos) *Val {
+		c := e.C
+		buf := a[1].T
+		hn := cellHeap(types.Typ[types.Uint8])
+		hs := heapSort(smt.BV(8))
+		h := e.heap(st, hn, hs)
+		old := c.Select(h, e.slObj(buf))
+		nr := c.Fresh("keccak.read", hs.Elem)
+		i := c.BoundVar("i", smt.BV(64))
+		inr := c.And(c.Cmp("bvuge", i, e.slOff(buf)), c.Cmp("bvult", c.BVOp("bvsub", i, e.slOff(buf)), e.slLen(buf)))
+		e.assume(st, c.Forall([]*smt.Term{i}, c.Implies(c.Not(inr), c.Eq(c.Select(nr, i), c.Select(old, i)))))
+		e.setHeap(st, hn, c.Store(h, e.slObj(buf), nr))
+		e.work(st, e.slLen(buf))
+		return &Val{Tup: []*Val{{T: e.slLen(buf)}, {T: c.LitU(0, IfaceW)}}}
+	})
+	// sort.Strings / sort.Slice: the slice content is permuted in place (modelled as: elements inside the slice's
+	// window become unknown, everything else is unchanged; sortedness itself is not used by any contract)
+	permute := func(e *Enc, st *State, sl *smt.Term, elem types.Type) {
+		c := e.C
+		for hn, hs := range e.heapsOfType(elem) {
+			h := e.heap(st, hn, hs)
+			old := c.Select(h, e.slObj(sl))
+			nr := c.Fresh("sorted:"+hn, hs.Elem)
+			i := c.BoundVar("i", smt.BV(64))
+			inr := c.And(c.Cmp("bvuge", i, e.slOff(sl)), c.Cmp("bvult", c.BVOp("bvsub", i, e.slOff(sl)), e.slLen(sl)))
+			e.assume(st, c.Forall([]*smt.Term{i}, c.Implies(c.Not(inr), c.Eq(c.Select(nr, i), c.Select(old, i)))))
+			e.setHeap(st, hn, c.Store(h, e.slObj(sl), nr))
+		}
+		e.work(st, e.slLen(sl))
+	}
+	reg("sort.Strings", func(e *Enc, fr *Frame, st *State, a []*Val, at []types.Type, pos token.Pos) *Val {
+		permute(e, st, a[0].T, types.Typ[types.String])
+		return &Val{}
+	})
 	// atomic.Bool
 	reg("(*sync/atomic.Bool).Load", func(e *Enc, fr *Frame, st *State, a []*Val, at []types.Type, pos token.Pos) *Val {
 		return &Val{T: e.atomicBool(st, a[0], at[0], nil)}
@@ -254,6 +302,7 @@ func init() {
 }
 
 const errorStringTypeID = 0xE5
+const keccakStateTypeID = 0xE6
 
 // ---------- uint256 helpers ----------
 
@@ -475,6 +524,19 @@ func (e *Enc) globalConstVal(q string, t types.Type) *smt.Term {
 	return nil
 }
 
+// globalU256Value: literal value of the declared u256 global with the given index.
+func (e *Enc) globalU256Value(idx uint64) *smt.Term {
+	for _, g := range e.P.Contr.Globals {
+		if uint64(g.Idx) == idx && g.Kind == "u256" {
+			n, ok := new(big.Int).SetString(strings.TrimPrefix(g.Val, "0x"), map[bool]int{true: 16, false: 10}[strings.HasPrefix(g.Val, "0x")])
+			if ok {
+				return e.C.Lit(n, 256)
+			}
+		}
+	}
+	return nil
+}
+
 // heapSortByName reconstructs the sort of a heap from its name (for modifies clauses naming heaps not yet used).
 func (p *Program) heapSortByName(h string) *smt.Sort {
 	switch {
@@ -494,6 +556,11 @@ func (p *Program) heapSortByName(h string) *smt.Sort {
 		}
 	case strings.HasPrefix(h, "cell:"):
 		t := p.resolveType(strings.TrimPrefix(h, "cell:"), nil)
+		if t == nil && strings.HasPrefix(h, "cell:[]") {
+			if et := p.resolveType(strings.TrimPrefix(h, "cell:[]"), nil); et != nil {
+				t = types.NewSlice(et)
+			}
+		}
 		if t != nil {
 			return heapSort(sortOf(t))
 		}
